@@ -25,6 +25,7 @@ func rulesC08(c *Ctx) {
 	ruleFlushRefs(c)
 	ruleFlushScope(c)
 	ruleFlushKeysPresent(c)
+	ruleExactInstanceLookup(c) // Server.Flush rejects unknown / empty names only through this lookup
 	ruleRIBCallers(c)
 	ruleUint128Sites(c)
 	ruleLockDiscipline(c, lockSel{classes: []string{"Server.elecMu"}, pairing: true})
